@@ -49,6 +49,17 @@ class Split(Family):
                 else:
                     parts.append(bytes(rng.choice(b'\r\n\x00 ab\xff') for _ in range(rng.randint(0, 5))))
             yield dict(kind='random', data=hx(b''.join(parts)), nl=hx(nl), keep=rng.random() < 0.5)
+        # size boundaries: the newline at / across offsets around powers of two, many lines, very long lines
+        for nl in (NEWLINES[0], NEWLINES[1], NEWLINES[4] if len(NEWLINES) > 4 else NEWLINES[-1]):
+            for n in (255, 256, 1023, 1024, 4095, 4096, 8191, 8192, 8193, 65535, 65536, 65537):
+                for k in (True, False):
+                    for off in (0, 1):
+                        d = b'x' * (n - off) + nl + b'y' * 3 + nl
+                        yield dict(kind='boundary', data=hx(d), nl=hx(nl), keep=k)
+                    yield dict(kind='boundary', data=hx(b'x' * n), nl=hx(nl), keep=k)
+            for k in (True, False):
+                yield dict(kind='boundary', data=hx((b'ab' + nl) * 3000), nl=hx(nl), keep=k)
+                yield dict(kind='boundary', data=hx(nl * 2050 + b'z'), nl=hx(nl), keep=k)
         # empty newline (assertion)
         yield dict(kind='emptynl', data=hx(b'abc'), nl='', keep=True)
 
